@@ -414,11 +414,132 @@ fn check_encoder_handles(acc: &mut Acc) {
     }
 }
 
+/// Long codes: alist texts well beyond 4096 bytes (thorough: beyond 65536), passed as strings and as
+/// files; one decode and one encode per handle, compared with the Rust decoder / encoder built from
+/// the same text.
+fn check_long_codes(run: &Run, acc: &mut Acc) {
+    let sizes: Vec<(usize, usize)> = if run.thorough() { vec![(300, 600), (1200, 2400), (2700, 5400)] } else { vec![(300, 600), (1200, 2400)] };
+    for (r, n) in sizes {
+        let k = n - r;
+        let mut h = SparseMatrix::new(r, n);
+        for j in 0..k {
+            for i in [(j * 7 + 1) % r, (j * 13 + 5) % r, (j * 29 + 11) % r] {
+                h.insert(i, j);
+            }
+        }
+        for i in 0..r {
+            h.insert(i, k + i);
+            if i > 0 {
+                h.insert(i, k + i - 1);
+            }
+        }
+        for (form, text) in [("padded", h.alist()), ("unpadded", h.alist_no_padding())] {
+            let parsed = match SparseMatrix::from_alist(&text) {
+                Ok(p) => p,
+                Err(e) => machinery(&format!("C19: long alist does not parse: {}", e)),
+            };
+            let path = run.root.join(".build").join("tmp").join(format!("c19_{}_{}_{}.alist", std::process::id(), n, form));
+            let _ = std::fs::create_dir_all(path.parent().unwrap());
+            std::fs::write(&path, &text).unwrap_or_else(|_| machinery("cannot write temp file"));
+            let mut x = 0x1357_9BDF_2468_ACE1u64 ^ (n as u64);
+            let llrs: Vec<f64> = (0..n)
+                .map(|_| {
+                    x ^= x << 13;
+                    x ^= x >> 7;
+                    x ^= x << 17;
+                    let mag = [0.6, 1.4, 2.2, 3.1, 4.5][(x >> 20) as usize % 5];
+                    if (x >> 40) % 9 == 0 {
+                        -mag
+                    } else {
+                        mag
+                    }
+                })
+                .collect();
+            for name in ["Phif64", "Minstarapproxi8Deg1Clip", "HLAminstarf32", "HLMinstarapproxi8"] {
+                if !dec::names().iter().any(|x| x == name) {
+                    machinery(&format!("C19: {} is not an implementation name", name));
+                }
+                for (punct, via_file) in [("", false), ("", true), ("1,1,0", false)] {
+                    acc.evals += 1;
+                    acc.nontrivial += 1;
+                    let key = format!("capi:long:{}x{}:{}:{}:{:?}:{}", r, n, form, name, punct, if via_file { "file" } else { "string" });
+                    let replay = json!({"kind": "long", "name": name});
+                    let (namec, pc) = (cs(name), cs(punct));
+                    let handle = unsafe {
+                        if via_file {
+                            let pathc = cs(path.to_str().unwrap());
+                            ldpc_toolbox_decoder_ctor(pathc.as_ptr(), namec.as_ptr(), pc.as_ptr())
+                        } else {
+                            let textc = cs(&text);
+                            ldpc_toolbox_decoder_ctor_alist_string(textc.as_ptr(), namec.as_ptr(), pc.as_ptr())
+                        }
+                    };
+                    if handle.is_null() {
+                        acc.violate(key, format!("decoder constructor returned null for a well-formed alist of {} bytes", text.len()), replay);
+                        continue;
+                    }
+                    let pat = pattern_ok(punct).unwrap();
+                    let tx: Vec<f64> = match &pat {
+                        None => llrs.clone(),
+                        Some(pp) => {
+                            let b = n / pp.len();
+                            (0..n).filter(|j| pp[j / b]).map(|j| llrs[j]).collect()
+                        }
+                    };
+                    let dep = ref_depuncture(&tx, &pat, n);
+                    let want = match dec::factory_build(name, parsed.clone()).unwrap().decode(&dep, 5) {
+                        Ok(o) => (o.iterations as i32, o.codeword),
+                        Err(o) => (-1, o.codeword),
+                    };
+                    let mut out = vec![0xAAu8; n];
+                    let ret = guard(|| unsafe { ldpc_toolbox_decoder_decode_f64(handle, out.as_mut_ptr(), out.len(), tx.as_ptr(), tx.len(), 5) });
+                    match ret {
+                        Err(e) => acc.violate(key, format!("decode panicked: {}", e), replay),
+                        Ok(rv) => {
+                            if rv != want.0 || out != want.1 {
+                                let pos = out.iter().zip(want.1.iter()).position(|(a, b)| a != b);
+                                acc.violate(key, format!("C decoder returns {} (first differing bit {:?}), the Rust decoder built from the same text returns {}", rv, pos, want.0), replay);
+                            }
+                        }
+                    }
+                    unsafe { ldpc_toolbox_decoder_dtor(handle) };
+                }
+            }
+            // encoder
+            acc.evals += 1;
+            acc.nontrivial += 1;
+            let key = format!("capi:long:{}x{}:{}:encoder", r, n, form);
+            let textc = cs(&text);
+            let pc = cs("");
+            let handle = unsafe { ldpc_toolbox_encoder_ctor_alist_string(textc.as_ptr(), pc.as_ptr()) };
+            if handle.is_null() {
+                acc.violate(key, format!("encoder constructor returned null for a well-formed alist of {} bytes", text.len()), json!({"kind": "long"}));
+            } else {
+                let enc = Encoder::from_h(&parsed).unwrap_or_else(|_| machinery("C19: long code has no encoder"));
+                let msg: Vec<u8> = (0..k).map(|i| ((i * i + i / 3) % 2) as u8).collect();
+                let want = crate::codes::encode_bits(&enc, &msg);
+                let mut out = vec![0xAAu8; n];
+                match guard(|| unsafe { ldpc_toolbox_encoder_encode(handle, out.as_mut_ptr(), out.len(), msg.as_ptr(), msg.len()) }) {
+                    Err(e) => acc.violate(key, format!("encode panicked: {}", e), json!({"kind": "long"})),
+                    Ok(()) => {
+                        if out != want {
+                            acc.violate(key, "C encoder output differs from the Rust encoder's codeword".into(), json!({"kind": "long"}));
+                        }
+                    }
+                }
+                unsafe { ldpc_toolbox_encoder_dtor(handle) };
+            }
+            let _ = std::fs::remove_file(&path);
+        }
+    }
+}
+
 pub fn run(run: &Run) -> i32 {
     let mut acc = Acc::new();
     let mut graph = (0u64, 0u64, 0u64);
     check_ctors(run, &mut acc);
     check_encoder_handles(&mut acc);
+    check_long_codes(run, &mut acc);
     let depth = 3;
     let thorough = run.thorough();
     let names = dec::names();
@@ -444,7 +565,7 @@ pub fn run(run: &Run) -> i32 {
         run,
         acc,
         Coverage {
-            rule: "constructors: 7 alist texts (valid 3x6, staircase 3x5, singular tail, truncated, non-numeric, out-of-range index, empty) x text and file variants x (36 names + 5 non-names) x 9 puncturing strings for the decoder, x 9 puncturing strings for the encoder, plus an unreadable path and non-UTF-8 byte strings in every argument position: null exactly when a Rust-side prerequisite fails; decoder handles: for each of 36 names x {no puncturing, '1,1,0'} (plus '0,1,1', '1,0,1', '0,1' for a subset of names) on the 3x6 code, EVERY call sequence of length <= 3 over 48 (72 thorough) calls (f64/f32 x 4 (6) LLR buffers x max_iterations {0,1,5} x output_len {k, n}), each call compared with a fresh Rust decoder on the depunctured (f32-widened) LLRs; encoder handles: every input in {0,1,2,255}^k on two codes x puncturing patterns, twice per handle. states/transitions = handle call sequences executed. Non-trivial = call made on a handle that has already been used / rejected constructor / punctured or non-binary encoder input.".into(),
+            rule: "long codes: 300x600 and 1200x2400 (thorough 2700x5400) staircase codes whose alist text has 13 k - 250 k bytes, padded and unpadded, through the string and the file constructor, 4 implementations, with and without puncturing: one decode and one encode per handle against the Rust decoder / encoder built from the same text; constructors: 7 alist texts (valid 3x6, staircase 3x5, singular tail, truncated, non-numeric, out-of-range index, empty) x text and file variants x (36 names + 5 non-names) x 9 puncturing strings for the decoder, x 9 puncturing strings for the encoder, plus an unreadable path and non-UTF-8 byte strings in every argument position: null exactly when a Rust-side prerequisite fails; decoder handles: for each of 36 names x {no puncturing, '1,1,0'} (plus '0,1,1', '1,0,1', '0,1' for a subset of names) on the 3x6 code, EVERY call sequence of length <= 3 over 48 (72 thorough) calls (f64/f32 x 4 (6) LLR buffers x max_iterations {0,1,5} x output_len {k, n}), each call compared with a fresh Rust decoder on the depunctured (f32-widened) LLRs; encoder handles: every input in {0,1,2,255}^k on two codes x puncturing patterns, twice per handle. states/transitions = handle call sequences executed. Non-trivial = call made on a handle that has already been used / rejected constructor / punctured or non-binary encoder input.".into(),
             exhaustive: true,
             extra: serde_json::Map::new(),
             graph: Some(graph),
